@@ -109,7 +109,7 @@ fn run_floats<T: Flt>(rep: &Report, cli: &Cli, replay: Option<(&str, usize, u64)
     fmts.extend(writer_formats::<T>());
     fmts.extend(radix_formats::<T>().into_iter().filter(|f| f.radix != 10));
     fmts.extend(mixed_formats::<T>());
-    #[cfg(all(feature = "format", feature = "catalogue"))]
+    #[cfg(all(feature = "format", feature = "prebuiltw"))]
     {
         if thorough || replay.is_some() {
             fmts.extend(harness::gen::prebuilt_writers::<T>());
